@@ -436,7 +436,7 @@ Proof.
              (fun e _ c2 => (Ok e (rev (t :: acc)), c2)) (fun e _ c2 => (Ok e (rev (t :: acc)), c2))).
     + eapply StepM_weaken; [exact Hs|left; apply le_n|]. apply (Sim_exp_token E n); auto.
       * eapply Dom_sfx; eauto. * apply Suffix_len in Hs. lia.
-    + intros r2 _ c2 _ Hs2 Hc2. eapply StepM_weaken; [exact Hs2|left; apply le_n|]. apply IH; auto.
+    + intros r2 t2 c2 _ Hs2 Hc2. eapply StepM_weaken; [exact Hs2|left; apply le_n|]. apply IH; auto.
       * eapply Dom_sfx; eauto. * apply Suffix_len in Hs2. lia.
     + intros. apply StepM_ret; auto.
   - intros. apply StepM_ret; auto.
@@ -464,7 +464,7 @@ Proof.
   - intros r a c1 _ Hs Hc1. eapply StepM_weaken; [exact Hs|left; apply le_n|]. apply IH; try sfx_side; auto.
   - intros e m c1 _ Hs Hc1. apply Suffix_skip_after_error in Hs.
     apply (StepM_add_diag E _ rho (repeat_go f q acc (skip_after_error (t :: i') e))
-             (repeat_go f p acc (skip_after_error (t :: i') e)) (diag_at e m) c1 Hc1).
+             (repeat_go f p acc (skip_after_error (t :: i') e)) (diag_at (t :: i') e m) c1 Hc1).
     eapply StepM_weaken; [exact Hs|left; apply le_n|]. apply IH; try sfx_side; auto. apply Inv_add_diag; auto.
 Qed.
 
@@ -486,24 +486,24 @@ Ltac add_diag_tac Hc :=
 
 Ltac step_rec IH Hs := eapply StepM_weaken; [exact Hs|left; apply le_n|]; apply IH; try sfx_side; auto.
 
-Lemma Sim_sep_list_rec E n rho {A} (p q : P A) sep : Sim E n rho p q -> forall fuel acc,
-  Sim E n rho (sep_list_rec fuel p sep acc) (sep_list_rec fuel q sep acc).
+Lemma Sim_sep_list_rec E n rho {A} (p q : P A) sep : Sim E n rho p q -> forall fuel prev acc,
+  Sim E n rho (sep_list_rec fuel p sep prev acc) (sep_list_rec fuel q sep prev acc).
 Proof.
-  intros Hp. induction fuel as [|f IH]; intros acc i c Hd Hi Hc; cbn [sep_list_rec]; [apply StepM_ret; [exact I|exact Hc]|].
+  intros Hp. induction fuel as [|f IH]; intros prev acc i c Hd Hi Hc; cbn [sep_list_rec]; [apply StepM_ret; [exact I|exact Hc]|].
   (* normalise the two-stage shape: first the item (with recovery), then the separator *)
   assert (forall (p0 : P A) c0,
     match
       match p0 i c0 with
       | (Ok r a, c1) => (Ok r (a :: acc), c1)
       | (Err e m, c1) =>
-          (Ok e acc, add_diag (mkDiag (new_range (first_range i) match e with t :: _ => trange t | [] => first_range i end) m) c1)
+          (Ok e acc, add_diag (mkDiag (new_range (range_or i (trange prev)) (range_or e (range_or i (trange prev)))) m) c1)
       | (Panic s, c1) => (Panic s, c1)
       | (NoFuel, c1) => (NoFuel, c1)
       end
     with
     | (Ok r acc', c1) =>
         match exp_token sep r c1 with
-        | (Ok r2 _, c2) => sep_list_rec f p0 sep acc' r2 c2
+        | (Ok r2 st, c2) => sep_list_rec f p0 sep st acc' r2 c2
         | (Err e _, c2) => (Ok e (rev acc'), c2)
         | (Panic s, c2) => (Panic s, c2)
         | (NoFuel, c2) => (NoFuel, c2)
@@ -515,18 +515,18 @@ Proof.
     match p0 i c0 with
     | (Ok r a, c1) =>
         match exp_token sep r c1 with
-        | (Ok r2 _, c2) => sep_list_rec f p0 sep (a :: acc) r2 c2
+        | (Ok r2 st, c2) => sep_list_rec f p0 sep st (a :: acc) r2 c2
         | (Err e _, c2) => (Ok e (rev (a :: acc)), c2)
         | (Panic s, c2) => (Panic s, c2)
         | (NoFuel, c2) => (NoFuel, c2)
         end
     | (Err e m, c1) =>
         (fun c1' => match exp_token sep e c1' with
-        | (Ok r2 _, c2) => sep_list_rec f p0 sep acc r2 c2
+        | (Ok r2 st, c2) => sep_list_rec f p0 sep st acc r2 c2
         | (Err e2 _, c2) => (Ok e2 (rev acc), c2)
         | (Panic s, c2) => (Panic s, c2)
         | (NoFuel, c2) => (NoFuel, c2)
-        end) (add_diag (mkDiag (new_range (first_range i) match e with t :: _ => trange t | [] => first_range i end) m) c1)
+        end) (add_diag (mkDiag (new_range (range_or i (trange prev)) (range_or e (range_or i (trange prev)))) m) c1)
     | (Panic s, c1) => (Panic s, c1)
     | (NoFuel, c1) => (NoFuel, c1)
     end) as Hx by (intros p0 c0; destruct (p0 i c0) as [[?|?|?|] ?]; reflexivity).
@@ -535,12 +535,12 @@ Proof.
   - apply Hp; auto.
   - intros r a c1 _ Hs Hc1. eapply StepM_case.
     + eapply StepM_weaken; [exact Hs|left; apply le_n|]. apply (Sim_exp_token E n); try sfx_side; auto.
-    + intros r2 _ c2 _ Hs2 Hc2. step_rec IH Hs2.
+    + intros r2 t2 c2 _ Hs2 Hc2. step_rec IH Hs2.
     + intros. apply StepM_ret; auto.
   - intros e m c1 _ Hs Hc1. add_diag_tac Hc1. eapply StepM_case.
     + eapply StepM_weaken; [exact Hs|left; apply le_n|]. apply (Sim_exp_token E n); try sfx_side; auto.
       apply Inv_add_diag; auto.
-    + intros r2 _ c2 _ Hs2 Hc2. step_rec IH Hs2.
+    + intros r2 t2 c2 _ Hs2 Hc2. step_rec IH Hs2.
     + intros. apply StepM_ret; auto.
 Qed.
 
@@ -550,7 +550,7 @@ Proof.
   - apply Hp; auto.
   - intros r a c1 _ Hs Hc1. eapply StepM_case.
     + eapply StepM_weaken; [exact Hs|left; apply le_n|]. apply (Sim_exp_token E n); try sfx_side; auto.
-    + intros r2 _ c2 _ Hs2 Hc2. eapply StepM_weaken; [exact Hs2|left; apply le_n|].
+    + intros r2 t2 c2 _ Hs2 Hc2. eapply StepM_weaken; [exact Hs2|left; apply le_n|].
       apply (Sim_sep_list_rec E n rho p q sep Hp); try sfx_side; auto.
     + intros. apply StepM_ret; auto.
   - intros. apply StepM_ret; auto.
